@@ -3743,3 +3743,132 @@ func ruleNextOK(c *Ctx, r *Rep) {
 		r.Undecided("census", token.NoPos, "no two-result call of an iterator's Next found")
 	}
 }
+
+// ---------------------------------------------------------------------------------------------------------------------
+
+func init() {
+	reg(&Rule{ID: "R-C09-printallpaths", Props: []string{"C09"}, Floor: 10,
+		Doc: "a field that every grammar action building a node of some type sets is consulted on every path through that type's writeTo: a printer that returns early for one alternative (include vs import) drops what the alternatives have in common (the metadata object)",
+		Run: rulePrintAllPaths})
+}
+
+func rulePrintAllPaths(c *Ctx, r *Rep) {
+	p := c.Gojq
+	info := p.TypesInfo
+	parse := c.Decl(p, "yyParserImpl.Parse")
+	if parse == nil {
+		r.Undecided("yyParse", token.NoPos, "yyParserImpl.Parse not found")
+		return
+	}
+	// field sets of the composite literals per node type
+	common := map[string]map[string]bool{}
+	count := map[string]int{}
+	ast.Inspect(parse.Body, func(q ast.Node) bool {
+		x, ok := q.(*ast.CompositeLit)
+		if !ok {
+			return true
+		}
+		nt := namedOf(info.TypeOf(x))
+		if nt == nil || nt.Obj().Pkg() == nil || nt.Obj().Pkg().Path() != pathGojq {
+			return true
+		}
+		st, ok := nt.Underlying().(*types.Struct)
+		if !ok {
+			return true
+		}
+		set := map[string]bool{}
+		for i, el := range x.Elts {
+			if kv, ok := el.(*ast.KeyValueExpr); ok {
+				set[kv.Key.(*ast.Ident).Name] = true
+			} else if i < st.NumFields() {
+				if id, isID := el.(*ast.Ident); !isID || id.Name != "nil" {
+					set[st.Field(i).Name()] = true
+				}
+			}
+		}
+		name := nt.Obj().Name()
+		count[name]++
+		if common[name] == nil {
+			common[name] = set
+		} else {
+			for f := range common[name] {
+				if !set[f] {
+					delete(common[name], f)
+				}
+			}
+		}
+		return true
+	})
+	n := 0
+	var names []string
+	for name := range common {
+		names = append(names, name)
+	}
+	sort.Strings(names)
+	for _, name := range names {
+		fd := c.Decl(p, name+".writeTo")
+		if fd == nil || fd.Recv == nil || len(fd.Recv.List) != 1 || len(fd.Recv.List[0].Names) != 1 {
+			continue
+		}
+		recv := info.Defs[fd.Recv.List[0].Names[0]]
+		var fields []string
+		for f := range common[name] {
+			if ast.IsExported(f) {
+				fields = append(fields, f)
+			}
+		}
+		sort.Strings(fields)
+		if len(fields) == 0 {
+			continue
+		}
+		g := cfg.New(fd.Body, func(*ast.CallExpr) bool { return true })
+		for _, f := range fields {
+			n++
+			mentions := func(nd ast.Node) bool {
+				found := false
+				ast.Inspect(nd, func(q ast.Node) bool {
+					if sel, ok := q.(*ast.SelectorExpr); ok && sel.Sel.Name == f {
+						if id, ok := unparen(sel.X).(*ast.Ident); ok && info.Uses[id] == recv {
+							found = true
+						}
+					}
+					return !found
+				})
+				return found
+			}
+			// blocks reachable from entry without passing a mention; an exit among them is a path that skips the field
+			seen := map[*cfg.Block]bool{}
+			var skipAt token.Pos
+			skipped := false
+			var walk func(b *cfg.Block)
+			walk = func(b *cfg.Block) {
+				if seen[b] || skipped {
+					return
+				}
+				seen[b] = true
+				for _, nd := range b.Nodes {
+					if mentions(nd) {
+						return
+					}
+					if rs, ok := nd.(*ast.ReturnStmt); ok {
+						skipped, skipAt = true, rs.Pos()
+						return
+					}
+				}
+				if len(b.Succs) == 0 {
+					skipped, skipAt = true, fd.Body.Rbrace
+					return
+				}
+				for _, s := range b.Succs {
+					walk(s)
+				}
+			}
+			walk(g.Blocks[0])
+			r.Check(!skipped, fmt.Sprintf("field:%s.%s", name, f), fd.Pos(), "%s.writeTo consults %s.%s on every path (all %d grammar actions that build a %s set it): %v%s", name, name, f, count[name], name, !skipped,
+				map[bool]string{true: " — a path that leaves at " + c.Pos(skipAt) + " never looks at it, so it is not printed for that alternative and the re-parsed AST lacks it", false: ""}[skipped])
+		}
+	}
+	if n == 0 {
+		r.Undecided("census", token.NoPos, "no node type with a field common to all its grammar actions")
+	}
+}
